@@ -14,9 +14,14 @@ EXTENDS Naturals, Sequences, TLC, Json
 
 VARIABLE l
 Trace == ndJsonDeserialize("trace.ndjson")
+\* A second kind of line ("CloseWaiter"): a Close that starts while an Accept has found the counter full and
+\* is about to wait.  CloseReleasesWaiters of ConnLimiter.tla: the accept returns (with the listener-closed
+\* error), and so does the Close.
 Reasons(e) ==
-    (IF e.max_active <= e.stop THEN {} ELSE {"SharedBound"})
-    \cup (IF e.served_all THEN {} ELSE {"AllServed"})
+    IF e.ev = "CloseWaiter"
+    THEN (IF e.fired /\ e.released /\ e.close_returned THEN {} ELSE {"CloseReleasesWaiters"})
+    ELSE (IF e.max_active <= e.stop THEN {} ELSE {"SharedBound"})
+         \cup (IF e.served_all THEN {} ELSE {"AllServed"})
 TraceInit == l = 1
 TraceNext == /\ l <= Len(Trace) /\ l' = l + 1
              /\ LET r == Reasons(Trace[l]) IN IF r = {} THEN TRUE ELSE PrintT(<<"NONCONF", l, r>>)
